@@ -96,6 +96,11 @@ def check(model: Model, run: Run) -> None:
             run.ob("W10-field-coverage", ok, {"class": short(c), "field": f, "written": f in written, "read": f in assigned})
             if not ok:
                 run.fail(Finding("W10-field-coverage", c, f"{f}|written={f in written}|read={f in assigned}", f"{short(c)}.{f} is {'never written by pack' if f not in written else 'never assigned by the decoder'}", ""))
+    for c_, res_ in list(ex.rres.items()) + [("<envelope>", ex.envelope), ("<control>", ex.ctl_generic)]:
+        for ln_, var_, lst_ in getattr(res_, "late_appends", []) if res_ is not None else []:
+            run.ob("W1-component-accepted", False, {"reader": short(res_.func), "list": lst_})
+            run.fail(Finding("W1-component-accepted", res_.func, f"late-append|{lst_}.append({var_})", f"{short(res_.func)} reads `{var_}` inside a loop but appends it to `{lst_}` only after the loop: "
+                             "of a repeated component only the last element is kept", f"{model.relpath(model.functions[res_.func].module) if res_.func in model.functions else ''}:{ln_}"))
     run.floor("message types aligned", n_types, 9)
     # ---- filters, credentials -------------------------------------------------------------------
     for group, base, idattr in ((ex.filter_classes, f"{FLT}.LDAPFilter", "filter_id"), (ex.cred_classes, f"{AUTH}.AuthenticationCredential", "auth_id")):
